@@ -165,11 +165,34 @@ func runC08(t *simrt.Tape, o Opts) Outcome {
 			}))
 		}
 		// the main task moves the clock while the clients run
-		nadv := t.Choose(3, "nadv")
+		nadv := t.Choose(4, "nadv")
 		menu := []time.Duration{pol.Revoke + time.Second, pol.Expire + time.Second + pol.Precision, time.Second}
 		for i := 0; i < nadv; i++ {
 			d := menu[t.Choose(len(menu), "adv")]
-			s.Point(simrt.KSeam, "main.advance")
+			// (let the clients get somewhere first)
+			for y := t.Choose(40, "main.wait"); y >= 0; y-- {
+				s.Point(simrt.KSeam, "main.advance")
+			}
+			// an operator revokes the newest version of some key while the clients run (inside its
+			// creation-stamp window the replacement collides with it, and copies of one key replace each
+			// other in the caches)
+			if t.Choose(3, "main.revoke") == 1 {
+				var ids []string
+				for id := range w.Store.Rows {
+					ids = append(ids, id)
+				}
+				sortStrings(ids)
+				if len(ids) > 0 {
+					id := ids[t.Choose(len(ids), "main.revoke.id")]
+					var newest int64
+					for c := range w.Store.Rows[id] {
+						if c > newest {
+							newest = c
+						}
+					}
+					w.Store.Revoke(id, newest)
+				}
+			}
 			w.Advance(d)
 		}
 		for _, tk := range tasks {
